@@ -12,17 +12,63 @@ def _lines(src):
     return [l for l in src.split("\n") if l.strip()]
 
 
+def strip_comment(line):
+    """remove a trailing '!' comment (quote-aware); '' for a full comment line"""
+    q = None
+    for i, c in enumerate(line):
+        if q:
+            if c == q:
+                q = None
+        elif c in "'\"":
+            q = c
+        elif c == "!":
+            return line[:i].rstrip()
+    return line
+
+
 def shared_label_do_inline_comment(src, ctx):
-    """comments kept: a label-DO statement carrying a trailing comment, directly followed by
-    another DO with the same label (shared terminal statement) -> valid program rejected"""
+    """comments kept: a non-block DO nest sharing its terminal label, with a comment
+    (trailing or full-line) between the first DO statement and the terminal statement, makes
+    the enclosing valid program a syntax error.  Recognised semantically: removing the
+    comments inside such regions (and nothing else) makes the program parse."""
     if ctx.get("ignore_comments", True):
         return False
-    L = _lines(src)
-    for a, b in zip(L, L[1:]):
-        ma, mb = _LABEL_DO.match(a), _LABEL_DO.match(b)
-        if ma and mb and ma.group(2) == mb.group(2) and "!" in a:
-            return True
-    return False
+    from fv import real
+    L = src.split("\n")
+    regions = []
+    for i, a in enumerate(L):
+        ma = _LABEL_DO.match(strip_comment(a))
+        if not ma:
+            continue
+        lab = ma.group(2)
+        shared = False
+        for j in range(i + 1, len(L)):
+            t = strip_comment(L[j]).strip()
+            mb = _LABEL_DO.match(t)
+            if mb and mb.group(2) == lab:
+                shared = True
+            if re.match(r"^%s\b" % lab, t):
+                if shared:
+                    regions.append((i, j))
+                break
+    if not regions:
+        return False
+    out = list(L)
+    touched = False
+    drop = set()
+    for (i, j) in regions:
+        for k in range(i, j + 1):
+            t = strip_comment(out[k])
+            if t != out[k] or not t.strip():
+                touched = True
+            out[k] = t
+            if not t.strip():
+                drop.add(k)      # blank lines are (empty) comment items too
+    if not touched:
+        return False
+    out = [l for k, l in enumerate(out) if k not in drop]
+    o = real.try_parse("\n".join(out), std=ctx.get("std", "f2008"), ignore_comments=False, free=True)
+    return o.kind == "tree"
 
 
 PREDICATES = {
